@@ -30,12 +30,23 @@ class Stream:
 
 
 def new_connection(E, total, end='eof', wfail=False, cap=4096, wslow=False):
+    capv = cap if z3.is_expr(cap) else BV(cap)
     sock = Sock(BV(0), total, end, (), False, wfail, (), wslow)
-    return mk(E, 'MemcacheBinaryConnection', stream=sock, codec=new_codec(limit), buffer=Buf(WIRE, BV(0), BV(0), BV(cap)))
+    # through the real constructor, so that fields a change adds get the value the crate gives them; the read buffer is then
+    # placed on the wire array (empty, at position 0, with the capacity the constructor chose)
+    try:
+        conn = E.call(E.fn('MemcacheBinaryConnection', 'new'), [sock, limit])
+        names = E.structs['MemcacheBinaryConnection']
+        f = list(conn.fields)
+        f[names.index('buffer')] = Buf(WIRE, BV(0), BV(0), capv)
+        f[names.index('codec')] = new_codec(limit)
+        return Agg('MemcacheBinaryConnection', f)
+    except (Unsupported, KeyError, ValueError):
+        return mk(E, 'MemcacheBinaryConnection', stream=sock, codec=new_codec(limit), buffer=Buf(WIRE, BV(0), BV(0), capv))
 
 
-def new_client(E, w, total, end='eof', wfail=False, sem=None, wslow=False):
-    conn = new_connection(E, total, end, wfail, wslow=wslow)
+def new_client(E, w, total, end='eof', wfail=False, sem=None, wslow=False, cap=4096):
+    conn = new_connection(E, total, end, wfail, wslow=wslow, cap=cap)
     cfg = mk(E, 'ClientConfig', item_memory_limit=limit, rx_timeout_secs=BV(60, 32), _wx_timeout_secs=BV(60, 32))
     if sem is None:
         sem = Ref(E.alloc(Agg('Semaphore', [BV(0)])))
@@ -111,3 +122,8 @@ def c09_socket(ck, tier):
 def c10_socket(ck, tier):
     from . import C13
     C13.socket_checks(ck, tier, for_prop='C10')
+
+
+def c12_socket(ck, tier):
+    from . import C13
+    C13.socket_checks(ck, tier, for_prop='C12')
